@@ -4,6 +4,10 @@ import json, os
 here = os.path.dirname(os.path.abspath(__file__))
 checks = json.load(open(os.path.join(here, "checks.json")))
 na = json.load(open(os.path.join(here, "na.json")))
+# every property is either claimed or listed: a property whose planned check is not built yet is listed as unclaimed
+allids = [json.loads(l)["id"] for l in open(os.path.join(here, "properties.jsonl")) if l.strip()]
+have = {c["id"] for c in checks} | {n["property_id"] for n in na}
+na = na + [{"property_id": i, "reason": "not claimed: the structural rule planned in DESIGN.md §3 is not built yet, so nothing is decided for this property by the current machinery"} for i in allids if i not in have]
 m = {
  "version": 1,
  "setup_cmd": "./setup.sh",
